@@ -1,4 +1,6 @@
 pub mod known;
+pub mod model;
+pub mod util;
 pub mod runner;
 pub mod tape;
 
